@@ -5,20 +5,32 @@ pub mod c04;
 pub mod c04gen;
 pub mod c04probe;
 pub mod c05;
+pub mod c06;
+pub mod c06model;
+pub mod c06sel;
 pub mod c07;
 pub mod c07core;
 pub mod c07low;
+pub mod c14;
+pub mod c14_avro;
+pub mod c14_ipc;
+pub mod c14_pq;
+pub mod c14_text;
 pub mod c15;
 pub mod c17;
+pub mod c18;
 pub mod pq_common;
 
 pub fn run(id: &str, ctx: &mut Ctx) -> bool {
     match id {
         "C04" => c04::run(ctx),
         "C05" => c05::run(ctx),
+        "C06" => c06::run(ctx),
         "C07" => c07::run(ctx),
+        "C14" => c14::run(ctx),
         "C15" => c15::run(ctx),
         "C17" => c17::run(ctx),
+        "C18" => c18::run(ctx),
         _ => return false,
     }
     true
